@@ -53,8 +53,16 @@ var c10Fixed = [][]string{
 
 // c10BigInput: thousands of distinct words with a few twins and uncapitalisable words among them.
 func c10BigInput(r *gen.R) []string {
-	n := r.Range(2048, 2600)
-	in := make([]string, 0, n+8)
+	n, rep := r.Range(2048, 2600), 1
+	switch r.Intn(8) { // inputs whose length (with repeats) crosses 2^15 and 2^16
+	case 0:
+		n, rep = r.Range(11000, 14000), r.Range(2, 4)
+	case 1:
+		n = r.Range(32760, 32780)
+	case 2:
+		n = r.Range(65530, 66000)
+	}
+	in := make([]string, 0, rep*(n+8))
 	for i := 0; i < n; i++ {
 		in = append(in, fmt.Sprintf("w%dx%c", i, 'a'+rune(i%26)))
 	}
@@ -64,6 +72,10 @@ func c10BigInput(r *gen.R) []string {
 	}
 	if r.Bool() {
 		in = append(in, "4", "Paris")
+	}
+	once := len(in)
+	for k := 1; k < rep; k++ { // the same words listed again: multiplicity must not matter
+		in = append(in, in[:once]...)
 	}
 	return r.ShuffleStrings(in)
 }
